@@ -214,9 +214,9 @@ IndexOfKey(P, key) == IF \E n \in 1..Len(P) : P[n].key = key
                       THEN CHOOSE n \in 1..Len(P) : P[n].key = key ELSE 0
 PrepDyn(P, D, j) ==
   IF j > Len(D) THEN P
-  ELSE LET n == IndexOfKey(P, D[j].key) IN
+  ELSE LET n == IF D[j].d THEN 0 ELSE IndexOfKey(P, D[j].key) IN
        IF n > 0 THEN PrepDyn([P EXCEPT ![n].dy = j], D, j + 1)
-       ELSE PrepDyn(Append(P, [key |-> D[j].key, st |-> 0, dy |-> j]), D, j + 1)
+       ELSE PrepDyn(Append(P, [key |-> IF D[j].d THEN "" ELSE D[j].key, st |-> 0, dy |-> j]), D, j + 1)
 Prepared(it) ==
   PrepDyn([n \in 1..Len(it.sattr) |-> [key |-> it.sattr[n].key, st |-> n, dy |-> 0]], it.dattr, 1)
 
@@ -464,31 +464,97 @@ SOmit ==    \* Cache([omit]) -- the negated omit-tag expression
      IN EvalAt(Site(F.i, "omit", 0), It.omit.e, K)
   /\ UNCHANGED <<pid, res>>
 
-SStag ==    \* visit_Start
+\* --- attribute dictionaries ------------------------------------------------
+CDict(i, j) == <<"dict", i, j>>
+DictIdx(it) == { j \in 1..Len(it.dattr) : it.dattr[j].d }
+\* the name under which a prepared entry is emitted (statement spelling wins)
+PName(it, a) == IF a.dy > 0 THEN it.dattr[a.dy].n ELSE it.sattr[a.st].n
+KeysOf(v) == { v.kvs[n].k : n \in 1..Len(v.kvs) }
+\* Is the named entry at position pj overridden by an attribute dictionary?
+\* Language (C07): a *later source in statement order* wins.  The code lets
+\* every dictionary that stands later in the prepared list win, i.e. a
+\* dictionary also overrides a later named entry that replaces a static
+\* attribute in place (deviation DictOverridesByPosition).
+Suppressed(it, P, pj, i) ==
+  \E dj \in 1..Len(P) :
+     /\ P[dj].dy > 0 /\ it.dattr[P[dj].dy].d
+     /\ IF "DictOverridesByPosition" \in Dev THEN dj > pj
+        ELSE P[dj].dy > P[pj].dy          \* statics have dy = 0: any dictionary is later
+     /\ PName(it, P[pj]) \in KeysOf(cells[CDict(i, P[dj].dy)])
+\* names a dictionary at position dj must leave to later entries
+Excluded(it, P, dj) ==
+  { PName(it, P[n]) : n \in { n \in 1..Len(P) :
+        ~(P[n].dy > 0 /\ it.dattr[P[n].dy].d) /\
+        (IF "DictOverridesByPosition" \in Dev THEN n > dj ELSE P[n].dy > P[dj].dy) } }
+
+SStag ==    \* visit_Start; Cache(filtering): attribute dictionaries are evaluated first
   /\ Running /\ F.st = "stag"
   /\ IF TagShown
      THEN /\ out' = Append(out, [a |-> "stag", i |-> F.i])
-          /\ ctl' = IF Len(Prepared(It)) > 0 THEN Goto("attr") ELSE Goto("stagend")
+          /\ ctl' = IF DictIdx(It) # {} THEN Goto("dicts")
+                    ELSE IF Len(Prepared(It)) > 0 THEN Goto("attr") ELSE Goto("stagend")
      ELSE /\ ctl' = Goto("cont") /\ UNCHANGED out
   /\ UNCHANGED <<pid, envs, glob, rep, cells, log, tok, exc, res>>
 
-SAttr ==    \* visit_Attribute (static: EmitText; dynamic: evaluate, None drops, default keeps)
+SDicts ==   \* evaluate the attribute dictionaries (in statement order) into their cells
+  /\ Running /\ F.st = "dicts"
+  /\ LET todo == { j \in DictIdx(It) : j >= F.j }
+         j == CHOOSE j \in todo : \A k \in todo : j <= k
+         rest == { k \in todo : k > j }
+         K(v) == IF v.t # "dict"
+                 THEN /\ RaiseAt(Site(F.i, "attr", j), IF v.t = "none" THEN "TypeError" ELSE "AttributeError")
+                      /\ UNCHANGED <<ctl, envs, glob, rep, cells, out>>
+                 ELSE /\ cells' = SetCell(CDict(F.i, j), v)
+                      /\ ctl' = IF rest = {} THEN Goto("attr") ELSE SetF([F EXCEPT !.j = j + 1])
+                      /\ UNCHANGED <<envs, glob, rep, out, exc>>
+     IN \E a \in EvAll(It.dattr[j].e, LookupAll) :
+          /\ log' = log \o EvLog(Site(F.i, "attr", j), a)
+          /\ tok' = Site(F.i, "attr", j)
+          /\ IF IsExc(a.r)
+             THEN /\ RaiseAt(Site(F.i, "attr", j), a.r.c)
+                  /\ UNCHANGED <<ctl, envs, glob, rep, cells, out>>
+             ELSE K(a.r)
+  /\ UNCHANGED <<pid, res>>
+
+\* atoms emitted by an attribute dictionary
+RECURSIVE DictAtoms(_, _, _, _, _)
+DictAtoms(i, v, n, excl, bools) ==
+  IF n > Len(v.kvs) THEN <<>>
+  ELSE LET kv == v.kvs[n]
+           skip == kv.k \in excl \/ kv.v = VNone \/ (kv.k \in bools /\ ~Truthy(kv.v))
+       IN (IF skip THEN <<>>
+           ELSE << [a |-> "kattr", i |-> i, k |-> kv.k,
+                    v |-> IF kv.k \in bools THEN [t |-> "str", s |-> kv.k] ELSE kv.v] >>)
+          \o DictAtoms(i, v, n + 1, excl, bools)
+
+SAttr ==    \* visit_Attribute / visit_DictAttributes
   /\ Running /\ F.st = "attr"
   /\ LET P == Prepared(It)
          a == P[F.j]
          nxt == IF F.j = Len(P) THEN Goto("stagend") ELSE SetF([F EXCEPT !.j = F.j + 1])
+         sup == Suppressed(It, P, F.j, F.i)
      IN IF a.dy = 0
-        THEN /\ out' = Append(out, [a |-> "sattr", i |-> F.i, n |-> a.st])
+        THEN \* static: emitted as written unless a dictionary supplies the name
+             /\ out' = IF sup THEN out ELSE Append(out, [a |-> "sattr", i |-> F.i, n |-> a.st])
              /\ ctl' = nxt
              /\ UNCHANGED <<envs, glob, rep, cells, log, tok, exc>>
-        ELSE LET K(v) ==
+        ELSE IF It.dattr[a.dy].d
+        THEN \* dictionary: already evaluated
+             /\ out' = out \o DictAtoms(F.i, cells[CDict(F.i, a.dy)], 1, Excluded(It, P, F.j), prog.bools)
+             /\ ctl' = nxt
+             /\ UNCHANGED <<envs, glob, rep, cells, log, tok, exc>>
+        ELSE LET d == It.dattr[a.dy]
+                 K(v) ==
                    /\ ctl' = nxt
-                   /\ out' = IF v = VNone THEN out
+                   /\ out' = IF sup THEN out
                              ELSE IF v = VDefault
-                             THEN (IF a.st > 0 THEN Append(out, [a |-> "sattr", i |-> F.i, n |-> a.st]) ELSE out)
+                             THEN (IF a.st > 0 THEN Append(out, [a |-> "sdflt", i |-> F.i, n |-> a.dy, st |-> a.st]) ELSE out)
+                             ELSE IF d.b
+                             THEN (IF Truthy(v) THEN Append(out, [a |-> "battr", i |-> F.i, n |-> a.dy, st |-> a.st]) ELSE out)
+                             ELSE IF v = VNone THEN out
                              ELSE Append(out, [a |-> "dattr", i |-> F.i, n |-> a.dy, st |-> a.st, v |-> v])
                    /\ UNCHANGED <<envs, glob, rep, cells>>
-             IN EvalAt(Site(F.i, "attr", a.dy), It.dattr[a.dy].e, K)
+             IN EvalAt(Site(F.i, "attr", a.dy), d.e, K)
   /\ UNCHANGED <<pid, res>>
 
 SStagEnd ==
@@ -610,7 +676,7 @@ SFb ==      \* fallback: start tag with static attributes, value, end tag
 Next ==
   \/ KEnter \/ KText \/ KDone
   \/ SOe \/ SDef \/ SCase \/ SCond \/ SRep \/ SIter \/ SSw \/ SRepl \/ SOmit
-  \/ SStag \/ SAttr \/ SStagEnd \/ SCont \/ SEtag \/ SLoop \/ SUndef \/ SDone
+  \/ SStag \/ SDicts \/ SAttr \/ SStagEnd \/ SCont \/ SEtag \/ SLoop \/ SUndef \/ SDone
   \/ Unwind \/ SFb
 
 Spec == Init /\ [][Next]_vars
@@ -630,6 +696,21 @@ Balanced(o, n, stk) ==
        THEN Len(stk) > 0 /\ stk[Len(stk)] = o[n].i /\ Balanced(o, n + 1, SubSeq(stk, 1, Len(stk) - 1))
   ELSE Balanced(o, n + 1, stk)
 WellBracketed == res = "ok" => Balanced(out, 1, <<>>)
+
+\* C07: every attribute name occurs at most once in an emitted start tag
+\* (names compared as emitted; a dictionary key equal to a later named entry is
+\* left to that entry, an earlier named entry is suppressed)
+AttrName(a) ==
+  CASE a.a = "sattr" -> pid.p.items[a.i].sattr[a.n].n
+    [] a.a \in {"dattr", "battr", "sdflt"} -> pid.p.items[a.i].dattr[a.n].n
+    [] a.a = "kattr" -> a.k
+    [] OTHER -> ""
+RECURSIVE LastStag(_, _)
+LastStag(o, n) == IF n = 0 THEN 0 ELSE IF o[n].a = "stag" THEN n ELSE LastStag(o, n - 1)
+AttrAtMostOncePerName ==
+  LET s == LastStag(out, Len(out)) IN
+  (s > 0 /\ \A n \in s + 1..Len(out) : out[n].a \in {"sattr", "dattr", "battr", "kattr", "sdflt"}) =>
+     \A m, n \in s + 1..Len(out) : m # n => AttrName(out[m]) # AttrName(out[n])
 
 \* C04: an expression occurrence is evaluated at most once per activation.
 CallEvents == { n \in 1..Len(log) : log[n].ev = "call" }
